@@ -136,7 +136,8 @@ CTX_PATHS = {'A': [['a'], ['a', 'b'], ['a', 'b', 'c'], ['u', 'i'], ['u', 'c']], 
 
 def gen_request(rng, case):
     views = case['views']
-    target = rng.choice(views)                      # aim most requests at a registered view
+    tidx = rng.randrange(len(views))                # aim most requests at a registered view
+    target = views[tidx]
     aimed = rng.random() < 0.7
     vname = target['name'] if aimed else rng.choice([v['name'] for v in views] * 3 + VNAMES)
     route = None
@@ -154,7 +155,7 @@ def gen_request(rng, case):
     method = rng.choice(METHODS + ['GET', 'GET', 'POST'])
     if post and method in ('GET', 'HEAD', 'DELETE'):
         method = 'POST'
-    return {'method': method, 'qs': qs, 'post': post, 'headers': headers, 'xhr': rng.random() < 0.35,
+    return tidx, {'method': method, 'qs': qs, 'post': post, 'headers': headers, 'xhr': rng.random() < 0.35,
             'accept': rng.choice(ACCEPT_HEADERS), 'route': route, 'mp': rng.choice(['1', '1', '2', ' 1']),
             'path': rng.choice(CTX_PATHS[target['ctx']] if aimed else PATHS), 'vname': vname, 'user': rng.random() < 0.4,
             'truth': sorted(rng.sample(range(10), rng.choice([0, 2, 4, 5, 7, 10])))}
@@ -194,11 +195,12 @@ def gen_case(rng):
     case = {'routes': routes, 'third': third, 'views': views, 'commits': commits, 'requests': []}
     points = _points(case)
     for _ in range(rng.choice([10, 12, 14])):
-        r = gen_request(rng, case)
-        r['after'] = nv if rng.random() < 0.45 else rng.choice(points)
+        tidx, r = gen_request(rng, case)
+        later = [p for p in points if p > tidx] or [nv]      # moments at which the aimed-at view is registered
+        r['after'] = nv if rng.random() < 0.4 else rng.choice(later if rng.random() < 0.85 else points)
         case['requests'].append(r)
-        if rng.random() < 0.4:                    # the same request again at another moment of the history
-            case['requests'].append(dict(r, after=rng.choice(points)))
+        if rng.random() < 0.45:                   # the same request again at another moment of the history
+            case['requests'].append(dict(r, after=rng.choice(later if rng.random() < 0.85 else points)))
     case['requests'].sort(key=lambda r: r['after'])
     return case
 
